@@ -116,6 +116,24 @@ func settle(base int) int {
 	return n - base
 }
 
+// quiesce waits (bounded) until nothing is in flight towards the handler and the handler is blocked
+// waiting for the client (or has returned): the script position at which the property's hypothesis
+// ("every send meets a ready receiver") allows a cancel. gRPC buffers client sends, so without this
+// the cancel could overtake a message the client already sent.
+func quiesce(cl *call, sent int, closedSend bool) {
+	for i := 0; i < 2000; i++ {
+		ph := cl.phase.Load()
+		if ph == 2 || ph == 3 || (ph == 1 && int(cl.nrecvd.Load()) >= sent && !closedSend) {
+			return
+		}
+		if i < 50 {
+			runtime.Gosched()
+		} else {
+			time.Sleep(200 * time.Microsecond)
+		}
+	}
+}
+
 // runCase executes the script pair on cc. measureLeak compares the goroutine count before and after.
 func runCase(cc grpc.ClientConnInterface, srv *scripted, c scase, measureLeak bool) outcome {
 	info, ok := shapes[c.Shape]
@@ -195,6 +213,7 @@ func runCase(cc grpc.ClientConnInterface, srv *scripted, c scase, measureLeak bo
 			ev("open:" + errEvent(err))
 		} else {
 			started = true
+			closedSend := false
 			t0 := time.Now()
 		loop:
 			for _, op := range cops {
@@ -214,6 +233,7 @@ func runCase(cc grpc.ClientConnInterface, srv *scripted, c scase, measureLeak bo
 							e = "clerr"
 						} else {
 							e = "cl"
+							closedSend = true
 						}
 					case 'r':
 						m := info.newRes()
@@ -233,6 +253,7 @@ func runCase(cc grpc.ClientConnInterface, srv *scripted, c scase, measureLeak bo
 					case 't':
 						e = "t" + canonMD(cs.Trailer())
 					case 'x':
+						quiesce(cl, len(out.sentReq), closedSend)
 						cancel()
 						e = "x"
 					case 'd':
@@ -240,6 +261,7 @@ func runCase(cc grpc.ClientConnInterface, srv *scripted, c scase, measureLeak bo
 							e = "slow" // the machine was too slow to reach this point well before the deadline
 							return
 						}
+						quiesce(cl, len(out.sentReq), closedSend)
 						<-ctx.Done()
 						e = "d"
 					}
